@@ -40,7 +40,7 @@ def main():
         # demos refer to their own worktree path: rewrite to the scratch one
         txt = open(demo).read().replace(awt, wt)
         open(os.path.join(wt, 'MUTATION', 'demo.py'), 'w').write(txt)
-        env = dict(os.environ, PYTHONPATH=wt, OMP_NUM_THREADS='2')
+        env = dict(os.environ, PYTHONPATH=wt, OMP_NUM_THREADS="1", MKL_NUM_THREADS="1")
         env.pop('VERIF_REPO', None)
         py = '/venv/bin/python'
         rc0, out0 = run([py, 'MUTATION/demo.py'], wt, env)
